@@ -63,6 +63,7 @@ var (
 	SiteVisit    = SiteID("Visit")
 	SiteOther    = SiteID("other")
 	SiteInner    = SiteID("inner")
+	SiteRelease  = SiteID("after-release")
 	siteByString = map[string]int{"Read": SiteRead, "Read.ret": SiteReadRet, "Seek": SiteSeek, "Seek.ret": SiteSeekRet, "ReadAt": SiteReadAt, "Write": SiteWrite, "Visit": SiteVisit, "call": SiteCall}
 )
 
@@ -192,6 +193,43 @@ func innerDue() int {
 	}
 	innerCount[me] = innerPeriod[me]
 	return me
+}
+
+// releasePark[i] says whether task i parks right after every synchronisation release of the
+// library (Unlock, RUnlock, Pool.Put, atomic Store/Swap/CompareAndSwap) in this run.
+var releasePark []bool
+
+// SetReleaseParking arms those yield points for the next Run (nil disables them).
+func SetReleaseParking(p []bool) { releasePark = p }
+
+//go:norace
+func releaseDue() int {
+	me := baton
+	if me < 0 || me >= len(releasePark) || !releasePark[me] {
+		return -1
+	}
+	return me
+}
+
+// YieldAfterRelease is the second hook of the instrumented build. Sharing that is synchronised
+// but not atomic - two critical sections with the lock given up in between - goes wrong only if
+// another task gets in exactly there; so that is where a task parks, not at every n-th hook.
+func YieldAfterRelease() {
+	if !active {
+		return
+	}
+	if freeRunners() > 0 && whoAmI(curGoid()) != getBaton() {
+		return
+	}
+	me := releaseDue()
+	if me < 0 {
+		return
+	}
+	parkNR(me, SiteRelease)
+	for getBaton() != me {
+		runtime.Gosched()
+	}
+	setState(me, stRunning)
 }
 
 // YieldInner is the hook of the instrumented library build.
